@@ -7,9 +7,10 @@
   the loop is released: the Logout ends the connection while the reader still has messages to hand over.  With `late`
   > 0 the application's OnLogout is held while `late` more messages arrive, then released.
 
-  Observation: `ok cb=<F<text>|L,…> lo=<OnLogout calls> closed=0|1 end=0|1`.  The callback order is judged by the SAME
-  automaton as the synchronous histories of family `sess`: `Spec.c08Item` (the one `C08_step` / `C08_run` are about),
-  started in the logged-on state the round has established: a delivery after the logout notification is
+  Observation: `ok cb=<F<text>|L,…> lo=<OnLogout calls> closed=0|1 end=0|1`.  The callback order is judged by the SAME two
+  automata as the synchronous histories of family `sess`: the diagnostic `SessSpec.c08Item` (names the clause) and the typed
+  `c8Step` / `c08Accepts` that `C08_step`, `C08_run`, `C08_trace_shape` are about (`C08.theorem_monitor_rejects` if only
+  that one objects), both started in the logged-on state the round has established: a delivery after the logout notification is
   `C08.delivery_outside_logon{after=onLogout}`; and a logged-on period ends with exactly one notification.
   Which messages the engine still delivers (all, some, none of the queued ones) is NOT prescribed here — only that
   none comes after `L`.  The driver answers `ok` for a well-formed op (nothing to predict: the verdict is the monitor's).
@@ -53,7 +54,13 @@ def drainVerdict (cbs : List String) (lo : Nat) (closed ended : Bool) : List Str
     let afterL := (cbs.dropWhile (· != "L")).drop 1
     let ctx := if afterL.any (·.startsWith "Fm") then "{arrived=before-the-disconnect}"
                else if afterL.any (·.startsWith "Fx") then "{arrived=during-OnLogout}" else ""
-    (s.bad.eraseDups.map (· ++ ctx))
+    -- the typed automaton of the theorems (`c8Step`, `C08_trace_shape`) on the same connection: connected, our Logon on the
+    -- wire, the logon notification, then the observed callbacks, then the close
+    let trace : List Obs8 :=
+      [Obs8.connected, .obs (.wire { kind := "A", seq := 1, f := [] }), .obs .onLogon]
+      ++ (items.filterMap toObs).map Obs8.obs ++ (if closed then [Obs8.obs .closed] else [])
+    let typed := if c08Accepts trace || !s.bad.isEmpty then [] else ["C08.theorem_monitor_rejects{family=drain}"]
+    (s.bad.eraseDups.map (· ++ ctx)) ++ typed
     ++ (if lo == 1 && (cbs.filter (· == "L")).length == 1 then [] else ["C08.logout_notifications{n=" ++ toString lo ++ "}"])
     ++ (if closed then [] else ["C08.connection_not_closed"])
     ++ (if ended then [] else ["C08.loop_stalled{stop}"])
@@ -86,7 +93,8 @@ private def mon (line : String) : String := (drainMonStep () (line.splitOn " "))
   == "bad C08.delivery_outside_logon{after=onLogout}{arrived=before-the-disconnect}"
 #guard mon "drain init=0 bs=2 incap=1 queued=3 late=2 => ok cb=Fm1,Fm2,Fm3,L,Fx1 lo=1 closed=1 end=1"
   == "bad C08.delivery_outside_logon{after=onLogout}{arrived=during-OnLogout}"
-#guard mon "drain init=0 bs=2 incap=1 queued=1 late=0 => ok cb=Fm1,L,L lo=2 closed=1 end=1" == "bad C08.logout_notifications{n=2}"
+#guard mon "drain init=0 bs=2 incap=1 queued=1 late=0 => ok cb=Fm1,L,L lo=2 closed=1 end=1"
+  == "bad C08.theorem_monitor_rejects{family=drain}; bad C08.logout_notifications{n=2}"
 #guard mon "drain init=0 bs=2 incap=9 queued=1 late=0 => ok cb=- lo=1 closed=1 end=1" == "bad-op"
 
 end Qfx.Drv
